@@ -75,7 +75,7 @@ def ctor(rng, clsname, multi=False):
             k = rng.integers(4)
             if k < 3:
                 return ['Rx', 'Ry', 'Rz'][k], [_angs(rng, unit, n)], {'unit': unit}
-            return 'Rand', [], {'N': n}
+            return 'Rand', [], {'N': n, '_seed': int(rng.integers(2 ** 31))}
         if clsname == 'UnitQuaternion' and r < 0.7:
             nm, args, kw = rotation_ctor(rng, clsname)
             if nm == 'Exp':          # UnitQuaternion has no Exp
@@ -84,7 +84,7 @@ def ctor(rng, clsname, multi=False):
         if clsname == 'UnitQuaternion':
             k = rng.integers(5)
             if k == 0:
-                return 'Rand', [], {}
+                return 'Rand', [], {'_seed': int(rng.integers(2 ** 31))}
             if k == 1:   # normalising constructor (s, v)
                 q = gen.vec(rng, 4, 1e-3, 1e3)
                 return '', [float(q[0]), q[1:].tolist()], {}
@@ -101,7 +101,7 @@ def ctor(rng, clsname, multi=False):
             if r < 0.8:
                 return rotation_ctor(rng, clsname)
             if r < 0.9:
-                return 'Rand', [], {}
+                return 'Rand', [], {'_seed': int(rng.integers(2 ** 31))}
             return '', [gen.so3(rng)], {}
         # SE3
         if r < 0.45:
@@ -121,7 +121,7 @@ def ctor(rng, clsname, multi=False):
         if k == 2:
             return ['Tx', 'Ty', 'Tz'][rng.integers(3)], [float(gen.sign(rng) * gen.logu(rng, 1e-6, 1e6))], {}
         if k == 3:
-            return 'Rand', [], {}
+            return 'Rand', [], {'_seed': int(rng.integers(2 ** 31))}
         if k == 4:
             return 'SO3', [gen.so3(rng)], {}
         if k == 5:
@@ -136,14 +136,14 @@ def ctor(rng, clsname, multi=False):
         if k == 0:
             return '', [_ang(rng, unit)], {'unit': unit}
         if k == 1:
-            return 'Rand', [], {}
+            return 'Rand', [], {'_seed': int(rng.integers(2 ** 31))}
         if k == 2:
             return 'Exp', [[gen.angle(rng)]], {}
         return '', [gen.so2(rng)], {}
     if clsname == 'SE2':
         if multi:
             n = int(rng.integers(2, 5))
-            return 'Rand', [], {'N': n}
+            return 'Rand', [], {'N': n, '_seed': int(rng.integers(2 ** 31))}
         k = rng.integers(6)
         t = gen.transl(rng, 2)
         if k == 0:
@@ -153,7 +153,7 @@ def ctor(rng, clsname, multi=False):
         if k == 2:
             return '', [float(t[0]), float(t[1])], {}
         if k == 3:
-            return 'Rand', [], {}
+            return 'Rand', [], {'_seed': int(rng.integers(2 ** 31))}
         if k == 4:
             return 'Exp', [np.r_[t, gen.angle(rng)].tolist()], {}
         return '', [gen.se2(rng)], {}
@@ -163,6 +163,9 @@ def ctor(rng, clsname, multi=False):
 def call(clsname, name, args, kwargs):
     C = cls(clsname)
     f = C if name == '' else getattr(C, name)
+    if '_seed' in kwargs:      # random constructors draw from numpy's global generator: make them replayable
+        kwargs = dict(kwargs)
+        np.random.seed(kwargs.pop('_seed'))
     args = [np.array(a) if isinstance(a, np.ndarray) else a for a in args]
     return f(*args, **kwargs)
 
